@@ -59,7 +59,7 @@ func main() {
 	case "list":
 		for _, k := range sortedKeys(P.Contracts) {
 			fc := P.Contracts[k]
-			if fc.Lib {
+			if fc.Lib || fc.Behaviour {
 				continue
 			}
 			fmt.Printf("%-90s props=%v\n", shortTypeName(k), fc.propSet())
@@ -81,6 +81,11 @@ func (fc *FuncContract) propSet() []string {
 		set[p] = true
 	}
 	for _, c := range fc.Ensures {
+		for _, t := range c.Tags {
+			set[t] = true
+		}
+	}
+	for _, c := range fc.Checks {
 		for _, t := range c.Tags {
 			set[t] = true
 		}
